@@ -33,8 +33,22 @@ def _set_objective(model, coefs, direction):
     model.objective_direction = direction
 
 
+def _user_items(model):
+    """Solver rows and columns that are neither steady-state rows nor flux variables (what the user or a helper added)."""
+    from . import observe
+
+    canon = observe.lp_canonical(observe.raw_lp(model))
+    mets = {m.id for m in model.metabolites}
+    rvars = {r.id for r in model.reactions} | {r.reverse_id for r in model.reactions}
+    return (tuple(c for c in canon[0] if c[0] not in rvars), tuple(r for r in canon[1] if r[0] not in mets))
+
+
 def derive(model, origin):
     coefs, direction = _objective(model)
+    try:
+        user_before = _user_items(model)
+    except Exception:
+        user_before = None
     try:
         with warnings.catch_warnings():
             warnings.simplefilter("ignore")
@@ -48,6 +62,16 @@ def derive(model, origin):
         raise OriginUnavailable(f"{origin}: objective {got} instead of {(coefs, direction)}")
     if sorted(r.id for r in out.reactions) != sorted(r.id for r in model.reactions):
         raise OriginUnavailable(f"{origin}: reaction set differs")
+    if user_before is not None and (user_before[0] or user_before[1]):
+        # a model with user-level constraints or variables: the route must have carried them along unchanged (file
+        # formats do not hold them; removing a reaction strips its coefficients from them - KF-C03-1); otherwise the
+        # derived model is a different model and nothing can be concluded from it here
+        try:
+            user_after = _user_items(out)
+        except Exception as exc:
+            raise OriginUnavailable(f"{origin}: solver problem unreadable: {exc!r}")
+        if user_after != user_before:
+            raise OriginUnavailable(f"{origin}: user-level constraints/variables differ after the route")
     return out
 
 
